@@ -5,6 +5,7 @@ package props
 
 import (
 	"fmt"
+	"runtime/debug"
 
 	"voicheck/econst"
 	"voicheck/load"
@@ -39,16 +40,24 @@ func init() {
 			"whether the sign of V_FACTOR matters: the Elligator map normalises the sign of v, the rule nevertheless requires the documented (non-negative) root",
 		}
 
+		// The quick configurations are loaded concurrently and kept (the mutant
+		// driver locates its edits in them); the three additional thorough
+		// configurations are loaded, checked and released one at a time so that
+		// at most four type-checked programs are alive (memory < 2 GB).
 		cfgs := c.Configs()
-		if !c.Preload(cfgs...) {
+		keep := map[string]bool{}
+		for _, id := range load.QuickConfigs {
+			keep[id] = true
+		}
+		if !c.Preload(load.QuickConfigs...) {
 			return
 		}
 		// expected_min: ~90% of the instance counts measured on the unchanged tree
 		// (quick = amd64, purego, f32; thorough = all six).
 		type mins struct{ value, rng, prov, table, complete, bias, asm, control, xradix int }
-		m := mins{value: 165, rng: 170, prov: 40, table: 1152, complete: 175, bias: 6, asm: 65, control: 110, xradix: 27}
+		m := mins{value: 165, rng: 170, prov: 40, table: 1040, complete: 175, bias: 5, asm: 65, control: 110, xradix: 27}
 		if c.Tier == "thorough" {
-			m = mins{value: 365, rng: 340, prov: 80, table: 2304, complete: 330, bias: 12, asm: 65, control: 220, xradix: 27}
+			m = mins{value: 365, rng: 340, prov: 80, table: 2080, complete: 330, bias: 10, asm: 65, control: 220, xradix: 27}
 		}
 		const id = "CONST"
 		run.Rule(id+"-value", "a literal constant equals its definition evaluated by the big-integer oracle", m.value)
@@ -67,6 +76,10 @@ func init() {
 				continue
 			}
 			econst.CheckAll(run, p, id)
+			if !keep[cfg] {
+				c.Drop(cfg)
+				debug.FreeOSMemory()
+			}
 		}
 
 		// samples: a few actual obligations, written out
